@@ -23,6 +23,9 @@ import (
 	"github.com/np-guard/netpol-analyzer/pkg/netpol/connlist"
 	"github.com/np-guard/netpol-analyzer/pkg/netpol/diff"
 
+	"verif/checks/c02"
+	"verif/checks/c10"
+	"verif/checks/expo"
 	"verif/fw"
 	"verif/wm"
 )
@@ -366,7 +369,7 @@ func copies() []interface{} {
 }
 
 func Run(r *fw.Run) {
-	r.Rule = "seed corpus = one valid manifest per kind the tool reads (17 documents incl. a List wrapper); every single structural mutation (drop, null, empty map/list/string, retype, value alphabet: IPv6 / invalid addresses and CIDRs, 0 / -1 / 70000, unknown enum strings) of every node; thorough adds all pairs of mutations within one document and byte-level truncations / line deletions; each mutant directory is analysed by list, list --exposure (all five formats each), diff in both positions (four formats) and eval (loader of the CLI + five queries); non-trivial = the mutant changes an outcome (error / different result); distinct = distinct outcome vectors per document kind"
+	r.Rule = "seed corpus = one valid manifest per kind the tool reads (18 documents incl. a List wrapper and a NetworkPolicy whose entire-cluster rule has named ports only); every single structural mutation (drop, null, empty map/list/string, retype, value alphabet: IPv6 / invalid addresses and CIDRs, 0 / -1 / 70000, unknown enum strings) of every node; thorough adds all pairs of mutations within one document and byte-level truncations / line deletions; plus four valid documents with API fields the analysis does not support (ANP networks / nodes / domainNames peers, a reversed port range) or on the documented named-port error path, each alone next to the corpus, unmutated and singly mutated; plus strided worlds of the exposure, admin-policy and ingress alphabets through the resource-info API (feature interactions on valid input); each mutant directory is analysed by list, list --exposure (all five formats each), diff in both positions (four formats) and eval (loader of the CLI + five queries); non-trivial = the mutant changes an outcome (error / different result); distinct = distinct outcome vectors per document kind"
 	r.Assume = []string{"oracle: every call returns (result and/or error); a recovered panic, a dead worker process or a 120 s per-case watchdog expiry is a violation", "exposure analysis is run on the corpus without the admin-policy documents (it refuses them up front), and additionally with them when the mutated document is an admin policy"}
 	setup()
 	if r.Quick() {
@@ -390,6 +393,37 @@ func Run(r *fw.Run) {
 		d := mutate(c, docs, di, "first")
 		return Case{Desc: fmt.Sprintf("doc=%d(%v) %s", di, parsed[di]["kind"], d), Docs: docs, HasANP: isAdmin(parsed[di])}
 	}, eval, onCrash)
+	// valid documents with unsupported fields / documented error paths, one at a time next to the corpus
+	var extras []map[string]interface{}
+	for _, s := range Extras {
+		var m map[string]interface{}
+		if err := yaml.Unmarshal([]byte(s), &m); err != nil {
+			panic(err)
+		}
+		extras = append(extras, m)
+	}
+	fw.ExploreIsolated(r, "unsupported-fields", fw.Full, 120*time.Second, func(c *fw.Ctx) Case {
+		ei := c.Choose(len(extras), "extra document")
+		docs := copies()
+		// the extra BANP replaces the one of the corpus (two BANPs are a conflict of their own)
+		if extras[ei]["kind"] == "BaselineAdminNetworkPolicy" {
+			var keep []interface{}
+			for _, d := range docs {
+				if d.(map[string]interface{})["kind"] != "BaselineAdminNetworkPolicy" {
+					keep = append(keep, d)
+				}
+			}
+			docs = keep
+		}
+		docs = append(docs, deepCopy(extras[ei]))
+		d := "unmutated"
+		if c.Choose(2, "unmutated | mutated") == 1 {
+			d = mutate(c, docs, len(docs)-1, "first")
+		}
+		return Case{Desc: fmt.Sprintf("extra=%d(%v %v) %s", ei, extras[ei]["kind"], extras[ei]["metadata"], d), Docs: docs, HasANP: isAdmin(extras[ei])}
+	}, eval, onCrash)
+	// valid worlds of the other checks' alphabets (feature interactions rather than malformed input)
+	validWorlds(r)
 	if r.Quick() {
 		return
 	}
@@ -423,6 +457,96 @@ func Run(r *fw.Run) {
 		d2 := mutate(c, docs, di, "second")
 		return Case{Desc: fmt.Sprintf("doc=%d(%v) %s ; %s", di, parsed[di]["kind"], d1, d2), Docs: docs, HasANP: isAdmin(parsed[di])}
 	}, eval, onCrash)
+}
+
+// validWorlds runs every command on (strided) worlds of the exposure, admin-policy and ingress scopes.
+func validWorlds(r *fw.Run) {
+	type src struct {
+		name   string
+		gen    func(*fw.Ctx) *wm.World
+		stride int
+	}
+	var srcs []src
+	for _, sc := range expo.Scopes(true) {
+		srcs = append(srcs, src{"expo-" + sc.Name, sc.Gen, map[string]int{"shared-policy": 1, "one-policy/two-rules": 8, "two-policies": 2}[sc.Name]})
+	}
+	for _, sc := range c02.Scopes(true) {
+		if sc.Name == "S-single" {
+			srcs = append(srcs, src{"c02-" + sc.Name, sc.Gen, 10})
+		}
+	}
+	srcs = append(srcs, src{"c10-ingress", c10.GenIngress, 100}, src{"c10-route", c10.GenRoute, 200})
+	base := (&wm.World{WLs: []wm.Workload{{Kind: "Deployment", NS: "ns1", Name: "w1", Labels: map[string]string{"app": "a"}, Replicas: 1}}}).Infos()
+	for _, sc := range srcs {
+		sc := sc
+		st := sc.stride
+		if !r.Quick() {
+			st = (st + 7) / 8
+		}
+		fw.Explore(r, "valid-worlds/"+sc.name, fw.Full, func(c *fw.Ctx) *wm.World {
+			w := sc.gen(c)
+			c.Stride(st)
+			return w
+		}, func(w *wm.World, x *fw.Rec) {
+			x.Describe(func() any { return map[string]any{"world": w.Brief(), "manifests": w.YAMLDocs()} })
+			infos := w.Infos()
+			var outc []string
+			run := func(name string, f func() string) {
+				var oc string
+				res, detail := guarded(name, func() { oc = f() })
+				if res != "" {
+					x.Fail(res, "", "command: "+name+"\n"+strings.Join(w.Brief(), "\n")+"\n"+detail)
+					oc = "PANIC"
+				}
+				outc = append(outc, name+"="+oc)
+			}
+			list := func(exposure bool) func() string {
+				return func() string {
+					res := ""
+					for _, f := range []string{"txt", "dot", "json", "md", "csv"} {
+						opts := []connlist.ConnlistAnalyzerOption{connlist.WithLogger(wm.Quiet()), connlist.WithMuteErrsAndWarns(), connlist.WithOutputFormat(f)}
+						if exposure {
+							opts = append(opts, connlist.WithExposureAnalysis())
+						}
+						ca := connlist.NewConnlistAnalyzer(opts...)
+						cs, _, err := ca.ConnlistFromResourceInfos(infos)
+						for _, e := range ca.Errors() {
+							_ = e.Error().Error()
+						}
+						if err != nil {
+							return "error"
+						}
+						_, _ = ca.ConnectionsListToString(cs)
+						res = fmt.Sprintf("ok(%d)", len(cs))
+					}
+					return res
+				}
+			}
+			run("list", list(false))
+			run("list --exposure", list(true))
+			for _, pos := range []int{1, 2} {
+				pos := pos
+				run(fmt.Sprintf("diff(position %d)", pos), func() string {
+					a, b := infos, base
+					if pos == 2 {
+						a, b = base, infos
+					}
+					for _, f := range []string{"txt", "md", "csv", "dot"} {
+						da := diff.NewDiffAnalyzer(diff.WithLogger(wm.Quiet()), diff.WithOutputFormat(f))
+						d, err := da.ConnDiffFromResourceInfos(a, b)
+						if err != nil {
+							return "error"
+						}
+						_, _ = da.ConnectivityDiffToString(d)
+					}
+					return "ok"
+				})
+			}
+			oc := strings.Join(outc, ";")
+			x.Outcome(oc)
+			x.Nontrivial(oc + strings.Join(w.Brief(), "|"))
+		})
+	}
 }
 
 func head(s string, n int) string {
